@@ -182,11 +182,22 @@ def carry_time_frac(units, carrier, tbase, tunit):
     raise KeyError(carrier)
 
 
+SHARED_SPANS = {}
+
+
+def shared(lst, conc):
+    """spanc = "shared": one caller-owned list object per distinct span, handed to every call that uses that span
+    (a call that writes into it shows in the calls that follow)"""
+    if conc.get("spanc") != "shared":
+        return lst
+    return SHARED_SPANS.setdefault(repr(lst), lst)
+
+
 def span(s, conc, f):
     if s is None or len(s) == 0:
         return None
     out = [f(v) for v in s]
-    return tuple(out) if conc.get("spanc") == "tuple" else list(out)
+    return tuple(out) if conc.get("spanc") == "tuple" else shared(list(out), conc)
 
 
 def canon(o):
@@ -245,7 +256,7 @@ def build(call, conc):
         else:
             inp = X()
             vs = [None if p["lo"] == NA else fv(p["lo"]), None if p["hi"] == NA else fv(p["hi"])]
-        kw = {"inp": inp, "valid_span": tuple(vs) if c.get("spanc") == "tuple" else vs,
+        kw = {"inp": inp, "valid_span": tuple(vs) if c.get("spanc") == "tuple" else shared(vs, c),
               "start_inclusive": p["sincl"], "end_inclusive": p["eincl"]}
         if c.get("dtype"):
             kw["dtype"] = np.dtype(c["dtype"])
